@@ -33,3 +33,113 @@ void h_req0_ctx_send(void)
 	req0_ctx_send(c, &vp_aio_a);
 	VP_CANARY();
 }
+
+#ifndef F_CL
+#define F_CL 1
+#endif
+void h_req0_ctx_reset(void)
+{
+	VP_HAVOC_GHOSTS();
+	VPY_HAVOC();
+	req0_sock *s = vp_mk_sock();
+	req0_ctx  *c = vp_ctx_state(s);
+#if X_ON_PIPE
+	vp_list_add(&s->busy_pipes, &((req0_pipe *) g_pp3)->node);
+#endif
+	req0_ctx_reset(c);
+	VP_CANARY();
+}
+void h_req0_ctx_fini(void)
+{
+	VP_HAVOC_GHOSTS();
+	VPY_HAVOC();
+	req0_sock *s = vp_mk_sock();
+	req0_ctx  *c = vp_ctx_state(s);
+#if X_ON_PIPE
+	vp_list_add(&s->busy_pipes, &((req0_pipe *) g_pp3)->node);
+#endif
+#if F_CL == 2
+	vp_list_add(&s->contexts, &s->master.sock_node);
+#endif
+	vp_list_add(&s->contexts, &c->sock_node);
+	req0_ctx_fini(c);
+	VP_CANARY();
+}
+void h_req0_sock_close(void)
+{
+	void *arg;
+	VP_HAVOC_GHOSTS();
+	VPY_HAVOC();
+	req0_sock_close(arg);
+	VP_CANARY();
+}
+#ifndef SC_RP2
+#define SC_RP2 0
+#endif
+/* a pipe P1 becomes available: -DAV_BUSY=1 it is on the busy list (send completion), 0 on no list (pipe start) */
+static req0_pipe *vp_avail_state(int busy)
+{
+	req0_sock *s = vp_mk_sock();
+	(void) vp_ctx_state(s);
+#if X_ON_PIPE
+	vp_list_add(&s->busy_pipes, &((req0_pipe *) g_pp3)->node);
+#endif
+	req0_pipe *p1 = vp_mk_pipe(s); g_p1 = p1;
+	if (busy) {
+		vp_list_add(&s->busy_pipes, &p1->node);
+	}
+#if SC_RP2 == 1
+	req0_pipe *p2 = vp_mk_pipe(s); g_p2 = p2; vp_list_add(&s->ready_pipes, &p2->node);
+#endif
+	return (p1);
+}
+void h_req0_send_cb(void)
+{
+	VP_HAVOC_GHOSTS();
+	VPY_HAVOC();
+	req0_pipe *p1 = vp_avail_state(1);
+	req0_send_cb(p1);
+	VP_CANARY();
+}
+void h_req0_pipe_start(void)
+{
+	VP_HAVOC_GHOSTS();
+	VPY_HAVOC();
+	req0_pipe *p1 = vp_avail_state(0);
+	req0_pipe_start(p1);
+	VP_CANARY();
+}
+
+/* ---- xreq.c ---- */
+void h_xreq0_pipe_start(void) { void *arg; VP_HAVOC_GHOSTS(); VPY_HAVOC(); xreq0_pipe_start(arg); VP_CANARY(); }
+void h_xreq0_pipe_close(void) { void *arg; VP_HAVOC_GHOSTS(); VPY_HAVOC(); xreq0_pipe_close(arg); VP_CANARY(); }
+void h_xreq0_getq_cb(void) { void *arg; VP_HAVOC_GHOSTS(); VPY_HAVOC(); xreq0_getq_cb(arg); VP_CANARY(); }
+void h_xreq0_send_cb(void) { void *arg; VP_HAVOC_GHOSTS(); VPY_HAVOC(); xreq0_send_cb(arg); VP_CANARY(); }
+void h_xreq0_putq_cb(void) { void *arg; VP_HAVOC_GHOSTS(); VPY_HAVOC(); xreq0_putq_cb(arg); VP_CANARY(); }
+void h_xreq0_recv_cb(void) { void *arg; VP_HAVOC_GHOSTS(); VPY_HAVOC(); xreq0_recv_cb(arg); VP_CANARY(); }
+
+/* ---- socket-level wrappers ---- */
+void h_req0_sock_send(void)
+{
+	VP_HAVOC_GHOSTS();
+	VPY_HAVOC();
+	req0_sock *s = vp_mk_sock();
+	(void) vp_ctx_state(s); /* -DREQ_CM=1: C1 is the socket's own context */
+#if X_ON_PIPE
+	vp_list_add(&s->busy_pipes, &((req0_pipe *) g_pp3)->node);
+#endif
+#if S_RP == 1
+	req0_pipe *p1 = vp_mk_pipe(s); g_p1 = p1; vp_list_add(&s->ready_pipes, &p1->node);
+#endif
+	req0_sock_send(s, &vp_aio_a);
+	VP_CANARY();
+}
+void h_req0_sock_recv(void)
+{
+	nni_aio *aio;
+	VP_HAVOC_GHOSTS();
+	VPY_HAVOC();
+	req0_sock *s = vp_mk_sock();
+	req0_sock_recv(s, aio);
+	VP_CANARY();
+}
